@@ -505,4 +505,262 @@ theorem inv_run (r : Dec) (hr : r ≠ 0) : ∀ (h : Hist) (s : St) (g : Ghost), 
     unfold grun
     exact inv_run r hr h _ _ (inv_step r hr s g ctx op pw hi hg.1) hg.2
 
+
+/-! ## amounts: what one accrual books (relative to `FloatOps`) -/
+
+/-- booking conserves: whole units on the locker plus the tracker grow by exactly the accrued amount; the whole units come out of
+the net fees and go into the balance; the tracker stays in [0,1) -/
+theorem book_books (s : St) (l : Locker) (x : Dec) (h t : Int) (s1 : St) (hl : s.locker = some l)
+    (h0 : 0 ≤ s.tracker.getD 0 + x) (hb : book s l x h t = some s1) :
+    booked s1 = booked s + x ∧ s1.coll = s.coll ∧ s1.wl = s.wl ∧
+    0 ≤ s1.tracker.getD 0 ∧ s1.tracker.getD 0 < Dec.one ∧
+    ∃ l1, s1.locker = some l1 ∧ l1.bh = h ∧ l1.bt = t ∧ l.ret ≤ l1.ret ∧ l1.net - l.net = l1.ret - l.ret ∧
+      s1.fees = s.fees - (l1.ret - l.ret) := by
+  obtain ⟨a, b, c, d⟩ := trackerStep_spec (s.tracker.getD 0) x h0
+  unfold book at hb
+  simp only [] at hb
+  split at hb
+  · split at hb
+    · exact absurd hb (by simp)
+    · injection hb with hb; subst hb
+      refine ⟨?_, rfl, rfl, by simpa using b, by simpa using c, _, rfl, rfl, rfl, by simp only []; omega, by simp only []; omega,
+        by simp only []; omega⟩
+      unfold booked
+      simp only [hl, Option.getD_some]
+      have : (l.ret + (trackerStep (s.tracker.getD 0) x).1) * Dec.P
+          = l.ret * Dec.P + (trackerStep (s.tracker.getD 0) x).1 * Dec.P := by ring
+      rw [this]; omega
+  · rename_i hlt
+    injection hb with hb; subst hb
+    refine ⟨?_, rfl, rfl, by simpa using h0, by simpa using (not_le.mp hlt), _, rfl, rfl, rfl, le_refl _, by simp, by simp⟩
+    unfold booked
+    simp only [hl, Option.getD_some]
+    omega
+
+/-- one accrual by a message at a running rate, power function of `ops`: the accrued interval is `[clock, now]`, it books
+exactly `interest` over it at the rate in force, stamps the locker `(height, now)`, and leaves the collector entry alone -/
+theorem accrue_books (ops : FloatOps) (s : St) (ctx : Ctx) (l : Locker) (s1 : St)
+    (hw : s.wl = true) (hne : s.coll.lsr ≠ 0) (hr : 0 ≤ s.coll.lsr) (hl : s.locker = some l) (hn : 0 ≤ l.net)
+    (htr : 0 ≤ s.tracker.getD 0)
+    (h : accrue s ctx l (some (ops.pow (xF s.coll.lsr) (yF (ctx.now - clock s l)))) = .ok s1) :
+    0 ≤ ctx.now - clock s l ∧
+    booked s1 = booked s + interest ops l.net s.coll.lsr (ctx.now - clock s l) ∧ s1.coll = s.coll ∧ s1.wl = s.wl ∧
+    0 ≤ s1.tracker.getD 0 ∧ s1.tracker.getD 0 < Dec.one ∧
+    ∃ l1, s1.locker = some l1 ∧ l1.bh = ctx.height ∧ l1.bt = ctx.now ∧ l.ret ≤ l1.ret ∧ l1.net - l.net = l1.ret - l.ret ∧
+      s1.fees = s.fees - (l1.ret - l.ret) := by
+  obtain ⟨x, hx, hb⟩ := accrue_ok s ctx l _ s1 hw hne h
+  obtain ⟨ex, hsec⟩ := VaultAccrual.calcRewards_eq_ok _ _ _ _ _ hx
+  have hx0 : 0 ≤ x := by
+    rw [ex]; exact interestOfPow_nonneg _ _ (ops.pow_ge_one _ _ hr hsec) (aF_nonneg l.net hn)
+  obtain ⟨b1, b2⟩ := book_books s l x _ _ s1 hl (Int.add_nonneg htr hx0) hb
+  refine ⟨hsec, ?_, b2⟩
+  rw [b1, ex]; rfl
+
+/-- the sweep of a rate update at a running rate, power function of `ops`: it settles `[clock, now]` at the OLD rate and stamps
+the locker `(changeTypes ? height : 0, now)` -/
+theorem iter_books (ops : FloatOps) (s : St) (ctx : Ctx) (ct : Bool) (l : Locker)
+    (hr : 0 ≤ s.coll.lsr) (hl : s.locker = some l) (hn : 0 ≤ l.net) (htr : 0 ≤ s.tracker.getD 0)
+    (hf : sweepFine s ctx (some (ops.pow (xF s.coll.lsr) (yF (ctx.now - clock s l)))) = true) :
+    ∃ s1, iter s ctx s.coll.lsr s.coll.bt ct (some (ops.pow (xF s.coll.lsr) (yF (ctx.now - clock s l)))) = some s1 ∧
+    0 ≤ ctx.now - clock s l ∧
+    booked s1 = booked s + interest ops l.net s.coll.lsr (ctx.now - clock s l) ∧ s1.coll = s.coll ∧ s1.wl = s.wl ∧
+    0 ≤ s1.tracker.getD 0 ∧ s1.tracker.getD 0 < Dec.one ∧
+    ∃ l1, s1.locker = some l1 ∧ l1.bh = (if ct then ctx.height else 0) ∧ l1.bt = ctx.now ∧ l.ret ≤ l1.ret ∧
+      l1.net - l.net = l1.ret - l.ret ∧ s1.fees = s.fees - (l1.ret - l.ret) := by
+  obtain ⟨x, s1, hx, hit, hb⟩ := iter_fine s ctx ct _ l hl hf
+  obtain ⟨ex, hsec⟩ := VaultAccrual.calcRewards_eq_ok _ _ _ _ _ hx
+  have hx0 : 0 ≤ x := by
+    rw [ex]; exact interestOfPow_nonneg _ _ (ops.pow_ge_one _ _ hr hsec) (aF_nonneg l.net hn)
+  obtain ⟨b1, b2⟩ := book_books s l x _ _ s1 hl (Int.add_nonneg htr hx0) hb
+  refine ⟨s1, hit, hsec, ?_, b2⟩
+  rw [b1, ex]; rfl
+
+
+theorem powOf_some (ops : FloatOps) (s : St) (ctx : Ctx) (l : Locker) (hl : s.locker = some l) :
+    powOf ops s ctx = some (ops.pow (xF s.coll.lsr) (yF (ctx.now - clock s l))) := by
+  unfold powOf; rw [hl]
+
+/-- the hypotheses about a state with a live locker that the amount-level theorems share -/
+structure Live (s : St) (l : Locker) : Prop where
+  wl : s.wl = true
+  rate : 0 ≤ s.coll.lsr
+  lk : s.locker = some l
+  net : 0 ≤ l.net
+  tr : 0 ≤ s.tracker.getD 0
+
+/-- **a reward-calc message at a running rate** books exactly `interest` over `[clock, now]` at the rate in force -/
+theorem calc_books (ops : FloatOps) (s : St) (ctx : Ctx) (l : Locker) (s1 : St) (hv : Live s l) (hne : s.coll.lsr ≠ 0)
+    (h : stepWith ops s ctx .rewardCalc = .ok s1) :
+    0 ≤ ctx.now - clock s l ∧
+    booked s1 = booked s + interest ops l.net s.coll.lsr (ctx.now - clock s l) ∧ s1.coll = s.coll ∧ s1.wl = s.wl ∧
+    0 ≤ s1.tracker.getD 0 ∧ s1.tracker.getD 0 < Dec.one ∧
+    ∃ l1, s1.locker = some l1 ∧ l1.bh = ctx.height ∧ l1.bt = ctx.now ∧ l.ret ≤ l1.ret ∧ l1.net - l.net = l1.ret - l.ret ∧
+      s1.fees = s.fees - (l1.ret - l.ret) := by
+  unfold stepWith at h
+  rw [powOf_some ops s ctx l hv.lk] at h
+  obtain ⟨l', hl', ha⟩ := step_calc_ok s ctx _ s1 h
+  have : l' = l := by rw [hv.lk] at hl'; injection hl' with e; exact e.symm
+  subst this
+  exact accrue_books ops s ctx l' s1 hv.wl hne hv.rate hv.lk hv.net hv.tr ha
+
+/-- **a rate update at a running rate** settles `[clock, now]` at the OLD rate, writes the new rate and `BlockTime = now` into
+the collector entry, and restarts the locker's clock: stamped `(height, now)`, or flagged `BlockHeight = 0` when the new rate is 0 -/
+theorem lsr_running_books (ops : FloatOps) (s : St) (ctx : Ctx) (nr : Dec) (l : Locker) (hv : Live s l) (hne : s.coll.lsr ≠ 0)
+    (hnr : 0 ≤ nr) (hh : ctx.height ≠ 0) (hf : sweepFine s ctx (powOf ops s ctx) = true) :
+    ∃ s1, stepWith ops s ctx (.lsrUpdate nr) = .ok s1 ∧ 0 ≤ ctx.now - clock s l ∧
+    booked s1 = booked s + interest ops l.net s.coll.lsr (ctx.now - clock s l) ∧
+    s1.coll.lsr = nr ∧ s1.coll.bt = ctx.now ∧ s1.wl = true ∧
+    0 ≤ s1.tracker.getD 0 ∧ s1.tracker.getD 0 < Dec.one ∧
+    ∃ l1, s1.locker = some l1 ∧ (nr ≠ 0 → clock s1 l1 = ctx.now) ∧ (nr = 0 → l1.bh = 0) ∧ l.ret ≤ l1.ret ∧
+      l1.net - l.net = l1.ret - l.ret ∧ s1.fees = s.fees - (l1.ret - l.ret) := by
+  have hpos : 0 < s.coll.lsr := lt_of_le_of_ne hv.rate (Ne.symm hne)
+  have hst := step_lsr s ctx nr (powOf ops s ctx) hv.wl
+  rw [powOf_some ops s ctx l hv.lk] at hst hf
+  unfold stepWith
+  rw [powOf_some ops s ctx l hv.lk]
+  by_cases hn : nr = 0
+  · obtain ⟨s1, hit, d, b, c1, w1, t1, t2, l1, e1, bh1, bt1, r1, n1, f1⟩ :=
+      iter_books ops s ctx false l hv.rate hv.lk hv.net hv.tr hf
+    rw [if_pos hn, hit, sweepRes_some] at hst
+    refine ⟨_, hst, d, ?_, rfl, rfl, by show s1.wl = true; rw [w1]; exact hv.wl, t1, t2, l1, e1, ?_, ?_, r1, n1, f1⟩
+    · show booked { s1 with coll := _ } = _
+      exact b
+    · intro h; exact absurd hn h
+    · intro _; simpa using bh1
+  · have hnp : 0 < nr := lt_of_le_of_ne hnr (Ne.symm hn)
+    obtain ⟨s1, hit, d, b, c1, w1, t1, t2, l1, e1, bh1, bt1, r1, n1, f1⟩ :=
+      iter_books ops s ctx true l hv.rate hv.lk hv.net hv.tr hf
+    rw [if_neg hn, if_neg hne, if_pos ⟨hpos, hnp⟩, hit, sweepRes_some] at hst
+    refine ⟨_, hst, d, ?_, rfl, rfl, by show s1.wl = true; rw [w1]; exact hv.wl, t1, t2, l1, e1, ?_, ?_, r1, n1, f1⟩
+    · show booked { s1 with coll := _ } = _
+      exact b
+    · intro _
+      show since ctx.now l1.bh l1.bt = ctx.now
+      simp only [if_true] at bh1
+      rw [bh1, bt1]; exact since_stamped _ _ _ hh
+    · intro h; exact absurd h hn
+
+/-- **the rate is switched on** (0 → r): nothing is booked; the collector entry is stamped `now`; a locker that carries the
+flag `BlockHeight = 0` has its clock moved to `now` -/
+theorem lsr_switch_on (s : St) (ctx : Ctx) (nr : Dec) (pw : Option Int) (hw : s.wl = true) (hz : s.coll.lsr = 0) (hn : nr ≠ 0) :
+    step s ctx (.lsrUpdate nr) pw = .ok { s with coll := ⟨nr, ctx.height, ctx.now⟩ } ∧
+    ∀ l, s.locker = some l → l.bh = 0 → clock { s with coll := ⟨nr, ctx.height, ctx.now⟩ } l = ctx.now := by
+  have hst := step_lsr s ctx nr pw hw
+  rw [if_neg hn, if_pos hz] at hst
+  refine ⟨hst, fun l _ hb => ?_⟩
+  show since ctx.now l.bh l.bt = ctx.now
+  rw [hb]; exact since_flag _ _
+
+/-- while the rate is zero a reward-calc message changes nothing -/
+theorem calc_at_zero (s : St) (ctx : Ctx) (pw : Option Int) (hz : s.coll.lsr = 0) :
+    (step s ctx .rewardCalc pw).getD s = s := by
+  unfold step
+  simp only []
+  split
+  · rfl
+  · rename_i l _
+    rw [accrue_idle s ctx l pw (Or.inr hz)]; rfl
+
+theorem runWith_calcs_at_zero (ops : FloatOps) : ∀ (w : List (Ctx × Op)) (s : St), s.coll.lsr = 0 →
+    (∀ p ∈ w, p.2 = Op.rewardCalc) → runWith ops s w = s
+  | [], _, _, _ => rfl
+  | (ctx, op) :: w, s, hz, hw => by
+    have e : op = .rewardCalc := hw (ctx, op) (by simp)
+    subst e
+    unfold runWith
+    have : (stepWith ops s ctx .rewardCalc).getD s = s := calc_at_zero s ctx _ hz
+    rw [this]
+    exact runWith_calcs_at_zero ops w s hz (fun p hp => hw p (by simp [hp]))
+
+
+/-- **a zero-rate window earns nothing.** The rate is switched off at `ca` (the sweep settles the locker up to `ca` and flags it),
+any number of reward-calc messages arrive during the window at any times, the rate is switched on again at `cb`, and the locker
+accrues at `cc`: over the whole history it is credited what it had at the switch-off plus `interest` over `[cb, cc]` at the NEW
+rate — nothing for `[ca, cb]` — and nothing at all when the accrual is in the block of the switch-on. -/
+theorem zero_window (ops : FloatOps) (s0 : St) (l0 : Locker) (ca cb cc : Ctx) (nr : Dec) (w : List (Ctx × Op))
+    (hv : Live s0 l0) (hne : s0.coll.lsr ≠ 0) (hfa : sweepFine s0 ca (powOf ops s0 ca) = true) (hha : ca.height ≠ 0)
+    (hw : ∀ p ∈ w, p.2 = Op.rewardCalc) (hnr : 0 < nr) :
+    ∃ s1 l1 s3, stepWith ops s0 ca (.lsrUpdate 0) = .ok s1 ∧ s1.locker = some l1 ∧ s1.coll.lsr = 0 ∧
+      runWith ops s1 w = s1 ∧
+      stepWith ops s1 cb (.lsrUpdate nr) = .ok s3 ∧ s3.locker = some l1 ∧ clock s3 l1 = cb.now ∧ booked s3 = booked s1 ∧
+      ∀ s4, stepWith ops s3 cc .rewardCalc = .ok s4 →
+        booked s4 = booked s1 + interest ops l1.net nr (cc.now - cb.now) ∧ (cc.now = cb.now → booked s4 = booked s1) := by
+  obtain ⟨s1, e1, _, _, r1, _, w1, t1, _, l1, k1, _, z1, _, n1, _⟩ :=
+    lsr_running_books ops s0 ca 0 l0 hv hne (le_refl _) hha hfa
+  have hn1 : 0 ≤ l1.net := by have := hv.net; omega
+  have hnr0 : nr ≠ 0 := ne_of_gt hnr
+  obtain ⟨e3, c3⟩ := lsr_switch_on s1 cb nr (powOf ops s1 cb) w1 r1 hnr0
+  have hc3 := c3 l1 k1 (z1 rfl)
+  refine ⟨s1, l1, _, e1, k1, r1, runWith_calcs_at_zero ops w s1 r1 hw, e3, k1, hc3, rfl, ?_⟩
+  intro s4 e4
+  have hv3 : Live { s1 with coll := ⟨nr, cb.height, cb.now⟩ } l1 := ⟨w1, le_of_lt hnr, k1, hn1, t1⟩
+  obtain ⟨_, b4, _⟩ := calc_books ops _ cc l1 s4 hv3 hnr0 e4
+  rw [hc3] at b4
+  refine ⟨b4, fun h => ?_⟩
+  rw [b4, h, Int.sub_self]
+  have : interest ops l1.net nr 0 = 0 := by
+    unfold interest; rw [ops.pow_zero nr (le_of_lt hnr)]; exact interestOfPow_one _
+  show booked s1 + interest ops l1.net nr 0 = booked s1
+  rw [this]; simp
+
+/-- **two accruals against one, the second being a reward-calc message or a rate update** (sub-additivity, also across a rate
+change): a reward-calc at `c1` followed by `op2` at `c2` books at most what `op2` alone books at `c2`, plus the float slack, plus
+the interest over `[c1, c2]` on the whole units the first call moved into the balance. `op2` books `interest` over its interval
+at the rate in force (hypotheses `b2`, `b'`: `calc_books` / `lsr_running_books` provide them). -/
+theorem two_le_one (ops : FloatOps) (s s1 : St) (l l1 : Locker) (c1 : Ctx) (t2 : Int) (B2 B' : Int)
+    (hv : Live s l) (hne : s.coll.lsr ≠ 0) (hn63 : l.net ≤ 2 ^ 63) (hh : c1.height ≠ 0) (h12 : c1.now ≤ t2)
+    (e1 : stepWith ops s c1 .rewardCalc = .ok s1) (k1 : s1.locker = some l1)
+    (b2 : B2 = booked s1 + interest ops l1.net s.coll.lsr (t2 - clock s1 l1))
+    (b' : B' = booked s + interest ops l.net s.coll.lsr (t2 - clock s l)) :
+    ((B2 : Int) : ℚ) ≤ ((B' : Int) : ℚ)
+      + subaddErr ops.E (aF l.net) (ops.pow (xF s.coll.lsr) (yF (t2 - clock s l)))
+      + ((interest ops l1.net s.coll.lsr (t2 - c1.now) - interest ops l.net s.coll.lsr (t2 - c1.now) : Int) : ℚ) := by
+  obtain ⟨d1, b1, cc1, _, _, _, l1', k1', bh1, bt1, _⟩ := calc_books ops s c1 l s1 hv hne e1
+  have : l1' = l1 := by rw [k1] at k1'; injection k1' with e; exact e.symm
+  subst this
+  have hclk : clock s1 l1' = c1.now := by
+    unfold clock; rw [bh1, bt1]; exact since_stamped _ _ _ hh
+  rw [hclk] at b2
+  generalize clock s l = base at *
+  have hsum : (c1.now - base) + (t2 - c1.now) = t2 - base := by ring
+  have key := two_interval ops l.net s.coll.lsr (c1.now - base) (t2 - c1.now) hv.net hn63 hv.rate d1 (by linarith)
+  rw [hsum] at key
+  rw [b2, b', b1]
+  push_cast at key ⊢
+  linarith
+
+
+theorem booked_restamp (s1 : St) (ctx : Ctx) (d : Int) : booked (restamp s1 ctx d) = booked s1 := by
+  unfold restamp booked
+  cases h : s1.locker with
+  | none => simp [h]
+  | some l => simp
+
+/-- **deposit / withdraw at a running rate**: the accrual comes first, on the balance BEFORE the movement, over `[clock, now]`;
+then the balance moves and the locker is stamped `(height, now)` -/
+theorem move_books (ops : FloatOps) (s : St) (ctx : Ctx) (l : Locker) (s' : St) (op : Op) (d : Int) (hv : Live s l)
+    (hne : s.coll.lsr ≠ 0) (hop : (op = .deposit d) ∨ (op = .withdraw (-d)))
+    (h : stepWith ops s ctx op = .ok s') :
+    0 ≤ ctx.now - clock s l ∧
+    booked s' = booked s + interest ops l.net s.coll.lsr (ctx.now - clock s l) ∧ s'.coll = s.coll ∧
+    ∃ l', s'.locker = some l' ∧ l'.bh = ctx.height ∧ l'.bt = ctx.now ∧ l.ret ≤ l'.ret ∧ l'.net = l.net + (l'.ret - l.ret) + d := by
+  unfold stepWith at h
+  rw [powOf_some ops s ctx l hv.lk] at h
+  have key : ∃ l0 s1, s.locker = some l0 ∧ accrue s ctx l0 (some (ops.pow (xF s.coll.lsr) (yF (ctx.now - clock s l)))) = .ok s1 ∧
+      s' = restamp s1 ctx d := by
+    rcases hop with e | e
+    · subst e; exact step_deposit_ok s ctx d _ s' h
+    · subst e
+      obtain ⟨l0, s1, a, _, b, c⟩ := step_withdraw_ok s ctx (-d) _ s' h
+      exact ⟨l0, s1, a, b, by simpa using c⟩
+  obtain ⟨l0, s1, hl0, ha, e⟩ := key
+  have : l0 = l := by rw [hv.lk] at hl0; injection hl0 with e; exact e.symm
+  subst this
+  obtain ⟨d0, b, c, _, _, _, l1, k1, _, _, r1, n1, _⟩ := accrue_books ops s ctx l0 s1 hv.wl hne hv.rate hv.lk hv.net hv.tr ha
+  obtain ⟨_, c2, k2⟩ := restamp_some s1 ctx d l1 k1
+  subst e
+  refine ⟨d0, by rw [booked_restamp]; exact b, by rw [c2]; exact c, _, k2, rfl, rfl, r1, ?_⟩
+  show l1.net + d = l0.net + (l1.ret - l0.ret) + d
+  omega
+
 end Comdex.LockerAccrual
